@@ -2,11 +2,8 @@
 From OV Require Import Proj.Ast Proj.Projector Proj.Convert Proj.ProjFacts.
 Require Import ExtrOcamlBasic.
 
-(* str(HolographicValue) oracle as a table; a missing entry falls back to the raw pattern *)
-Fixpoint holo_tbl (t : list (str * str)) (raw : str) : str :=
-  match t with [] => raw | (k, v) :: r => if str_eqb k raw then v else holo_tbl r raw end.
-Definition markdown_tbl (t : list (str * str)) (d : doc) : str := markdown (holo_tbl t) d.
-Definition md_pairs_tbl (t : list (str * str)) (d : doc) : list (str * str) := md_pairs (md_struct (holo_tbl t) d).
+(* no str(HolographicValue) oracle any more (repair 88905cd): the markdown model is closed *)
+Definition md_pairs_doc (d : doc) : list (str * str) := md_pairs (md_struct d).
 
-Extraction "../ocaml/gen/proj.ml" extract_anchor project ast_to_dict cli_ast_to_dict markdown_tbl md_pairs_tbl
-  items_doc items_dict wf_doc read_dec Z_to_dec filter_fields.
+Extraction "../ocaml/gen/proj.ml" extract_anchor project ast_to_dict cli_ast_to_dict markdown md_pairs_doc
+  items_doc items_dict wf_doc native_dict read_dec Z_to_dec filter_fields.
